@@ -268,14 +268,17 @@ def gen_weight(rng, kinds=('int', 'dec', 'frac')):
 def gen_doc(rng, names=None, max_c=6, person=None, weights=('int', 'dec', 'frac'), title=None, withdrawn=True):
     n = rng.randint(1, max_c) if rng.random() < 0.95 else 0
     pool = list(names or (NAMES_PLAIN + NAMES_RICH))
-    rng.shuffle(pool)
-    chosen = pool[:n]
     if person is None:
         person = rng.random() < 0.6
+    all_person = person and rng.random() < 0.5
+    if not (all_person and rng.random() < 0.4):
+        pool = list(dict.fromkeys(pool))          # string candidates must be distinct; Person objects may share a name
+    rng.shuffle(pool)
+    chosen = pool[:n]
     cands = []
     for nm in chosen:
         kind = 'person' if person else 'str'
-        if person and rng.random() < 0.15:
+        if person and not all_person and rng.random() < 0.15:
             kind = 'str'
         wd = withdrawn and kind == 'person' and rng.random() < 0.3
         cands.append([nm, wd, kind])
